@@ -5,16 +5,19 @@ import PnaVerif.Lemmas.Reser
 import PnaVerif.Lemmas.ArchiveRt
 /-!
   The entry iterator inside a solid block (`Model/Solid.lean`: `decodeIn`, `collectEntry`, `solidIter`,
-  `solidEntries`).
+  `solidEntries`), after both `fix:` commits (stop after a stream error; a stream that ends inside an entry is an
+  error, not a silent end).
 
   * `decodeIn_*`, `collectEntry_no_panic`, `collectEntry_ok_inv`   one `next()`: never panics with fuel above the
                               number of remaining bytes; a gathered entry consumes at least 12 bytes
   * `solidIter_no_panic`, `solidIter_length`   the iterator is total and yields at most `len / 12 + 1` items
-  * `solidTrace`, `solidTrace_snd`, `solidTrace_stream_error_last`   the same iteration with stream errors tagged:
-                              a stream error can only be the last item
+  * `solidIter_ne_nil`        a non-empty inner stream never yields "nothing, no error"
+  * `solidTrace`, `solidTrace_snd`, `solidTrace_stream_error_last`, `solidTrace_true`   the same iteration with
+                              stream errors tagged: a stream error can only be the last item
   * `collectEntry_encode`, `solidIter_encode`   round trip over `encodeChunks (es.flatMap serN)` followed by the
                               terminal condition of the decoder stack (`streamEnd`)
-  * `collectEntry_take_eof`, `solidIter_take`   a truncated inner stream yields a prefix of the entries, silently
+  * `collectEntry_take_eof`, `solidIter_take`   a truncated inner stream yields the entries complete before the cut
+                              and then an error, unless the cut falls exactly between two entries
 -/
 namespace Pna
 open ChunkType
@@ -138,19 +141,20 @@ theorem solidIter_no_panic (fuel : Nat) (s : InStream) (hf : s.bytes.length < fu
     unfold solidIter
     have hc := collectEntry_no_panic (s.bytes.length + 1) s [] (by omega)
     split
-    · simp
-    · simp
-    · rename_i p hp; exact absurd hp (hc p)
-    · rename_i cs s' hok
-      intro o ho
-      simp only [List.mem_cons] at ho
-      rcases ho with rfl | ho
-      · intro p hp
-        have := parseN_no_panic cs
-        rw [hp] at this
-        simp [Outcome.isPanic] at this
-      · have := collectEntry_ok_lt hok
-        exact ih s' (by omega) o ho
+    · split <;> simp
+    · split
+      · simp
+      · rename_i p hp; exact absurd hp (hc p)
+      · rename_i cs s' hok
+        intro o ho
+        simp only [List.mem_cons] at ho
+        rcases ho with rfl | ho
+        · intro p hp
+          have := parseN_no_panic cs
+          rw [hp] at this
+          simp [Outcome.isPanic] at this
+        · have := collectEntry_ok_lt hok
+          exact ih s' (by omega) o ho
 
 /-- The number of items is bounded by the input: every yielded entry consumed at least 12 bytes, and at most one
     further item (a stream error) ends the iteration. -/
@@ -161,26 +165,42 @@ theorem solidIter_length (fuel : Nat) (s : InStream) (hf : s.bytes.length < fuel
   | succ fuel ih =>
     unfold solidIter
     split
-    · simp
-    · simp
-    · simp
-    · rename_i cs s' hok
-      have h12 := collectEntry_ok_lt hok
-      have := ih s' (by omega)
-      simp only [List.length_cons]
-      omega
+    · split <;> simp
+    · split
+      · simp
+      · simp
+      · rename_i cs s' hok
+        have h12 := collectEntry_ok_lt hok
+        have := ih s' (by omega)
+        simp only [List.length_cons]
+        omega
+
+/-- A non-empty inner stream never iterates to "nothing, no error": the first `next()` yields an entry, a parse
+    error or a stream error. -/
+theorem solidIter_ne_nil (fuel : Nat) (s : InStream) (h : s.bytes ≠ []) : solidIter fuel s ≠ [] := by
+  cases fuel with
+  | zero => simp [solidIter]
+  | succ fuel =>
+    unfold solidIter
+    rw [if_neg h]
+    split <;> simp
 
 -- ---------------------------------------------------------------- stream errors are last
 
-/-- `solidIter` with every item tagged: `true` exactly for a stream error (the `[.error e]` branch). -/
+/-- `solidIter` with every item tagged: `true` exactly for a stream error (the terminal error of the decoder stack
+    when no byte is left, and any error while gathering the chunks of an entry). -/
 def solidTrace : Nat → InStream → List (Bool × Outcome NormalEntry)
   | 0, _ => [(false, .panic "fuel")]
   | fuel+1, s =>
-    match collectEntry (s.bytes.length + 1) s [] with
-    | .error .eof => []
-    | .error e => [(true, .error e)]
-    | .panic p => [(false, .panic p)]
-    | .ok (cs, s') => (false, parseN cs) :: solidTrace fuel s'
+    if s.bytes = [] then
+      match s.term with
+      | none => []
+      | some e => [(true, .error e)]
+    else
+      match collectEntry (s.bytes.length + 1) s [] with
+      | .error e => [(true, .error e)]
+      | .panic p => [(false, .panic p)]
+      | .ok (cs, s') => (false, parseN cs) :: solidTrace fuel s'
 
 theorem solidTrace_snd (fuel : Nat) (s : InStream) :
     (solidTrace fuel s).map Prod.snd = solidIter fuel s := by
@@ -188,11 +208,15 @@ theorem solidTrace_snd (fuel : Nat) (s : InStream) :
   | zero => rfl
   | succ fuel ih =>
     unfold solidTrace solidIter
-    generalize collectEntry (s.bytes.length + 1) s [] = x
-    rcases x with ⟨cs, s'⟩ | e | p
-    · simp only [List.map_cons, ih s']
-    · cases e <;> rfl
-    · rfl
+    by_cases hb : s.bytes = []
+    · rw [if_pos hb, if_pos hb]
+      cases s.term <;> rfl
+    · rw [if_neg hb, if_neg hb]
+      generalize collectEntry (s.bytes.length + 1) s [] = x
+      rcases x with ⟨cs, s'⟩ | e | p
+      · simp only [List.map_cons, ih s']
+      · rfl
+      · rfl
 
 /-- every item but the last is tagged `false` -/
 def AllButLastFalse {α : Type} (l : List (Bool × α)) : Prop :=
@@ -221,31 +245,41 @@ theorem solidTrace_stream_error_last (fuel : Nat) (s : InStream) : AllButLastFal
   | succ fuel ih =>
     unfold solidTrace
     split
-    · exact AllButLastFalse_nil
-    · exact AllButLastFalse_singleton _
-    · exact AllButLastFalse_singleton _
-    · exact AllButLastFalse_cons _ _ (ih _)
+    · split
+      · exact AllButLastFalse_nil
+      · exact AllButLastFalse_singleton _
+    · split
+      · exact AllButLastFalse_singleton _
+      · exact AllButLastFalse_singleton _
+      · exact AllButLastFalse_cons _ _ (ih _)
 
-/-- the tag means what it says: a `true` item is an error other than `UnexpectedEof` -/
+/-- the tag means what it says: a `true` item is an error item -/
 theorem solidTrace_true (fuel : Nat) (s : InStream) :
-    ∀ x ∈ solidTrace fuel s, x.1 = true → ∃ e, e ≠ Err.eof ∧ x.2 = .error e := by
+    ∀ x ∈ solidTrace fuel s, x.1 = true → ∃ e, x.2 = .error e := by
   induction fuel generalizing s with
   | zero => intro x hx; simp [solidTrace] at hx; subst hx; simp
   | succ fuel ih =>
     unfold solidTrace
     split
-    · simp
-    · rename_i e hne _
-      intro x hx _
-      simp only [List.mem_singleton] at hx
-      subst hx
-      exact ⟨e, fun h => hne (by rw [h]), rfl⟩
-    · intro x hx; simp only [List.mem_singleton] at hx; subst hx; simp
-    · intro x hx
-      simp only [List.mem_cons] at hx
-      rcases hx with rfl | hx
+    · split
       · simp
-      · exact ih _ x hx
+      · rename_i e _
+        intro x hx _
+        simp only [List.mem_singleton] at hx
+        subst hx
+        exact ⟨e, rfl⟩
+    · split
+      · rename_i e _
+        intro x hx _
+        simp only [List.mem_singleton] at hx
+        subst hx
+        exact ⟨e, rfl⟩
+      · intro x hx; simp only [List.mem_singleton] at hx; subst hx; simp
+      · intro x hx
+        simp only [List.mem_cons] at hx
+        rcases hx with rfl | hx
+        · simp
+        · exact ih _ x hx
 
 -- ---------------------------------------------------------------- serialised entries as `body ++ [FEND]`
 
@@ -324,25 +358,29 @@ theorem collectEntry_encode (body : List Chunk) (last : Chunk) (hlast : last.ty 
             omega)]
       simp
 
-/-- What the iterator yields when the bytes run out: nothing on a clean end (or a terminal `UnexpectedEof`), the
-    terminal error once otherwise. -/
+/-- What the iterator yields when no byte is left: nothing on a clean end of stream, the terminal error of the
+    decoder stack once otherwise. -/
 def streamEnd (t : Option Err) : List (Outcome NormalEntry) :=
-  match t.getD .eof with
-  | .eof => []
-  | e => [.error e]
+  match t with
+  | none => []
+  | some e => [.error e]
 
 theorem streamEnd_none : streamEnd none = [] := rfl
-theorem streamEnd_eof : streamEnd (some .eof) = [] := rfl
-theorem streamEnd_err (e : Err) (he : e ≠ .eof) : streamEnd (some e) = [.error e] := by
-  cases e <;> first | rfl | exact absurd rfl he
+theorem streamEnd_some (e : Err) : streamEnd (some e) = [.error e] := rfl
 
 theorem solidIter_empty (fuel : Nat) (t : Option Err) : solidIter (fuel + 1) ⟨[], t⟩ = streamEnd t := by
-  have h : collectEntry (([] : Bytes).length + 1) ⟨[], t⟩ [] = .error (t.getD .eof) := by
-    show collectEntry 1 ⟨[], t⟩ [] = _
-    rw [collectEntry, decodeIn_mk_eof [] t rfl]
   unfold solidIter streamEnd
-  simp only [h]
-  cases t.getD .eof <;> rfl
+  rw [if_pos rfl]
+  cases t <;> rfl
+
+theorem solidIter_nonempty_step (fuel : Nat) (s : InStream) (h : s.bytes ≠ []) :
+    solidIter (fuel + 1) s =
+      match collectEntry (s.bytes.length + 1) s [] with
+      | .error e => [.error e]
+      | .panic p => [.panic p]
+      | .ok (cs, s') => parseN cs :: solidIter fuel s' := by
+  rw [solidIter, if_neg h]
+  rfl
 
 /-- **Round trip inside a solid block**, for any sufficient fuel and any terminal condition. -/
 theorem solidIter_encode (es : List NormalEntry) (hwf : ∀ e ∈ es, e.WF)
@@ -359,13 +397,18 @@ theorem solidIter_encode (es : List NormalEntry) (hwf : ∀ e ∈ es, e.WF)
       rw [List.flatMap_cons, encodeChunks_append] at hf ⊢
       have hpos := encodeChunks_serN_pos e
       have hfe := hfit e (by simp)
+      have hne : (InStream.mk (encodeChunks (serN e) ++ encodeChunks (es.flatMap serN)) t).bytes ≠ [] := by
+        intro h0
+        have := congrArg List.length h0
+        simp only [List.length_append, List.length_nil] at this
+        omega
       have hc := collectEntry_encode (serNBody e) ⟨FEND, []⟩ rfl
         (serNBody_no_FEND e (WF_extra_no_FEND e (hwf e (by simp)))) (by rw [← serN_eq_body]; exact hfe)
         (encodeChunks (es.flatMap serN)) t []
         ((encodeChunks (serN e) ++ encodeChunks (es.flatMap serN)).length + 1)
         (by rw [← serN_eq_body]; omega)
       rw [List.nil_append, ← serN_eq_body] at hc
-      rw [solidIter]
+      rw [solidIter_nonempty_step f _ hne]
       simp only [hc]
       rw [parseN_serN e (hwf e (by simp)),
         ih (fun e he => hwf e (by simp [he])) (fun e he => hfit e (by simp [he])) f
@@ -374,26 +417,26 @@ theorem solidIter_encode (es : List NormalEntry) (hwf : ∀ e ∈ es, e.WF)
 
 -- ---------------------------------------------------------------- truncation
 
-/-- Gathering over a proper prefix of the encoding of `body ++ [last]` (whatever would have followed) ends in
-    `UnexpectedEof` when the stream ends cleanly there. -/
+/-- Gathering over a proper prefix of the encoding of `body ++ [last]` (whatever would have followed) fails: with
+    `UnexpectedEof` when the stream ends cleanly there, with the terminal error of the decoder stack otherwise. -/
 theorem collectEntry_take_eof (body : List Chunk) (last : Chunk)
     (hbody : ∀ c ∈ body, c.ty ≠ FEND) (hfit : ChunksFit (body ++ [last])) (rest : Bytes) (t : Option Err)
-    (ht : t.getD .eof = .eof) (k : Nat) (hk : k < (encodeChunks (body ++ [last])).length)
+    (k : Nat) (hk : k < (encodeChunks (body ++ [last])).length)
     (acc : List Chunk) (fuel : Nat) (hf : ((encodeChunks (body ++ [last]) ++ rest).take k).length < fuel) :
-    collectEntry fuel ⟨(encodeChunks (body ++ [last]) ++ rest).take k, t⟩ acc = .error .eof := by
+    collectEntry fuel ⟨(encodeChunks (body ++ [last]) ++ rest).take k, t⟩ acc = .error (t.getD .eof) := by
   induction body generalizing k acc fuel with
   | nil =>
     match fuel, hf with
     | f + 1, _ =>
       rw [List.nil_append, encodeChunks_singleton] at hk ⊢
-      rw [collectEntry, decodeIn_mk_eof _ _ (decodeStream_prefix_eof last rest k (hfit last (by simp)) hk), ht]
+      rw [collectEntry, decodeIn_mk_eof _ _ (decodeStream_prefix_eof last rest k (hfit last (by simp)) hk)]
   | cons c body ih =>
     match fuel, hf with
     | f + 1, hf =>
       rw [List.cons_append, encodeChunks_cons] at hk
       rw [List.cons_append, encodeChunks_cons, List.append_assoc] at hf ⊢
       by_cases hk1 : k < c.encode.length
-      · rw [collectEntry, decodeIn_mk_eof _ _ (decodeStream_prefix_eof c _ k (hfit c (by simp)) hk1), ht]
+      · rw [collectEntry, decodeIn_mk_eof _ _ (decodeStream_prefix_eof c _ k (hfit c (by simp)) hk1)]
       · rw [List.take_append, List.take_of_length_le (by omega)] at hf ⊢
         rw [collectEntry, decodeIn_mk_ok _ _ _ _ (decodeStream_encode c _ (hfit c (by simp)))]
         simp only
@@ -403,48 +446,72 @@ theorem collectEntry_take_eof (body : List Chunk) (last : Chunk)
         · have := Chunk.encode_length c
           rw [List.length_append] at hf; omega
 
-/-- **Truncation is silent but prefix-closed**: cutting the inner stream anywhere yields exactly the entries that
-    are complete before the cut (`n` of them: the first `n` fit in `k` bytes, the first `n + 1` do not), and nothing
-    else — no error item. -/
+/-- **Truncation is detected unless the cut falls exactly between two entries.**  Cutting the inner stream after
+    `k` bytes yields exactly the entries that are complete before the cut (`n` of them: the first `n` fit in `k`
+    bytes, the first `n + 1` do not); then, if the cut is exactly at the end of entry `n`, what a stream that ends
+    there yields (`streamEnd t`), and otherwise the error `read_exact` meets inside entry `n + 1`
+    (`UnexpectedEof` for a clean end of stream). -/
 theorem solidIter_take (es : List NormalEntry) (hwf : ∀ e ∈ es, e.WF)
-    (hfit : ∀ e ∈ es, ChunksFit (serN e)) (t : Option Err) (ht : t.getD .eof = .eof) (k fuel : Nat)
+    (hfit : ∀ e ∈ es, ChunksFit (serN e)) (t : Option Err) (k fuel : Nat)
+    (hk : k ≤ (encodeChunks (es.flatMap serN)).length)
     (hf : ((encodeChunks (es.flatMap serN)).take k).length < fuel) :
     ∃ n, n ≤ es.length ∧
       (encodeChunks ((es.take n).flatMap serN)).length ≤ k ∧
       (n < es.length → k < (encodeChunks ((es.take (n + 1)).flatMap serN)).length) ∧
-      solidIter fuel ⟨(encodeChunks (es.flatMap serN)).take k, t⟩ = (es.take n).map (fun e => .ok e.recut) := by
+      solidIter fuel ⟨(encodeChunks (es.flatMap serN)).take k, t⟩
+        = (es.take n).map (fun e => .ok e.recut)
+          ++ (if k = (encodeChunks ((es.take n).flatMap serN)).length then streamEnd t
+              else [.error (t.getD .eof)]) := by
   induction es generalizing k fuel with
   | nil =>
     match fuel, hf with
     | f + 1, _ =>
+      have hk0 : k = 0 := by simpa [encodeChunks] using hk
+      subst hk0
       refine ⟨0, Nat.le_refl _, by simp [encodeChunks], by simp, ?_⟩
-      have : (encodeChunks (([] : List NormalEntry).flatMap serN)).take k = [] := by simp [encodeChunks]
+      have : (encodeChunks (([] : List NormalEntry).flatMap serN)).take 0 = [] := rfl
       rw [this, solidIter_empty]
-      unfold streamEnd
-      rw [ht]
-      rfl
+      simp [encodeChunks]
   | cons e es ih =>
     match fuel, hf with
     | f + 1, hf =>
-      rw [List.flatMap_cons, encodeChunks_append] at hf ⊢
+      rw [List.flatMap_cons, encodeChunks_append] at hk hf ⊢
       have hpos := encodeChunks_serN_pos e
       have hfe := hfit e (by simp)
       have hnf := serNBody_no_FEND e (WF_extra_no_FEND e (hwf e (by simp)))
-      by_cases hk : k < (encodeChunks (serN e)).length
+      by_cases hk1 : k < (encodeChunks (serN e)).length
       · refine ⟨0, Nat.zero_le _, by simp [encodeChunks], ?_, ?_⟩
         · intro _
           simp only [Nat.zero_add, List.take_succ_cons, List.take_zero, List.flatMap_cons, List.flatMap_nil,
             List.append_nil]
-          exact hk
-        have hc := collectEntry_take_eof (serNBody e) ⟨FEND, []⟩ hnf (by rw [← serN_eq_body]; exact hfe)
-          (encodeChunks (es.flatMap serN)) t ht k (by rw [← serN_eq_body]; exact hk) []
-          (((encodeChunks (serN e) ++ encodeChunks (es.flatMap serN)).take k).length + 1)
-          (by rw [← serN_eq_body]; omega)
-        rw [← serN_eq_body] at hc
-        rw [solidIter]
-        simp only [hc]
-        rfl
+          exact hk1
+        have hl0 : (encodeChunks (((e :: es).take 0).flatMap serN)).length = 0 := by simp [encodeChunks]
+        rw [hl0]
+        by_cases hk0 : k = 0
+        · subst hk0
+          rw [List.take_zero, solidIter_empty]
+          simp
+        · have hne : (InStream.mk ((encodeChunks (serN e) ++ encodeChunks (es.flatMap serN)).take k) t).bytes ≠ [] := by
+            intro h0
+            have := congrArg List.length h0
+            simp only [List.length_take, List.length_append, List.length_nil] at this
+            omega
+          have hc := collectEntry_take_eof (serNBody e) ⟨FEND, []⟩ hnf (by rw [← serN_eq_body]; exact hfe)
+            (encodeChunks (es.flatMap serN)) t k (by rw [← serN_eq_body]; exact hk1) []
+            (((encodeChunks (serN e) ++ encodeChunks (es.flatMap serN)).take k).length + 1)
+            (by rw [← serN_eq_body]; omega)
+          rw [← serN_eq_body] at hc
+          rw [solidIter_nonempty_step f _ hne]
+          simp only [hc]
+          rw [if_neg hk0]
+          rfl
       · rw [List.take_append, List.take_of_length_le (by omega)] at hf ⊢
+        have hne : (InStream.mk (encodeChunks (serN e) ++
+            (encodeChunks (es.flatMap serN)).take (k - (encodeChunks (serN e)).length)) t).bytes ≠ [] := by
+          intro h0
+          have := congrArg List.length h0
+          simp only [List.length_append, List.length_nil] at this
+          omega
         have hc := collectEntry_encode (serNBody e) ⟨FEND, []⟩ rfl hnf (by rw [← serN_eq_body]; exact hfe)
           ((encodeChunks (es.flatMap serN)).take (k - (encodeChunks (serN e)).length)) t []
           ((encodeChunks (serN e) ++
@@ -452,18 +519,24 @@ theorem solidIter_take (es : List NormalEntry) (hwf : ∀ e ∈ es, e.WF)
           (by rw [← serN_eq_body]; omega)
         rw [List.nil_append, ← serN_eq_body] at hc
         obtain ⟨n, hn, hlo, hhi, hiter⟩ := ih (fun e he => hwf e (by simp [he])) (fun e he => hfit e (by simp [he]))
-          (k - (encodeChunks (serN e)).length) f (by rw [List.length_append] at hf; omega)
-        refine ⟨n + 1, by simp only [List.length_cons]; omega, ?_, ?_, ?_⟩
-        · simp only [List.take_succ_cons, List.flatMap_cons, encodeChunks_append, List.length_append]
-          omega
+          (k - (encodeChunks (serN e)).length) f (by rw [List.length_append] at hk; omega)
+          (by rw [List.length_append] at hf; omega)
+        have hlen : (encodeChunks (((e :: es).take (n + 1)).flatMap serN)).length
+            = (encodeChunks (serN e)).length + (encodeChunks ((es.take n).flatMap serN)).length := by
+          simp only [List.take_succ_cons, List.flatMap_cons, encodeChunks_append, List.length_append]
+        refine ⟨n + 1, by simp only [List.length_cons]; omega, by omega, ?_, ?_⟩
         · intro hlt
           simp only [List.length_cons] at hlt
           have := hhi (by omega)
-          simp only [List.take_succ_cons, List.flatMap_cons, encodeChunks_append, List.length_append]
+          simp only [List.take_succ_cons, List.flatMap_cons, encodeChunks_append, List.length_append] at this ⊢
           omega
-        · rw [solidIter]
+        · rw [solidIter_nonempty_step f _ hne]
           simp only [hc]
-          rw [parseN_serN e (hwf e (by simp)), hiter]
-          simp
+          rw [parseN_serN e (hwf e (by simp)), hiter, hlen]
+          by_cases hcut : k - (encodeChunks (serN e)).length = (encodeChunks ((es.take n).flatMap serN)).length
+          · rw [if_pos hcut, if_pos (by omega)]
+            simp
+          · rw [if_neg hcut, if_neg (by omega)]
+            simp
 
 end Pna
